@@ -17,7 +17,7 @@ checks = sys.argv[sys.argv.index("--checks") + 1].split(",") if "--checks" in sy
 name = sys.argv[sys.argv.index("--as") + 1] if "--as" in sys.argv else k  # stored as <Cxx>-<name>
 env = dict(os.environ, CARGO_NET_OFFLINE="true", CARGO_TARGET_DIR=os.path.join(wt, "target"))
 notes = open(os.path.join(src, "notes%s.md" % k)).read() if os.path.exists(os.path.join(src, "notes%s.md" % k)) else ""
-if "indicatif_verif" in notes and "RUSTFLAGS" in notes and "--demo-cfg" in sys.argv:
+if "--demo-cfg" in sys.argv:
     env["RUSTFLAGS"] = "--cfg indicatif_verif"
 
 
@@ -37,7 +37,7 @@ res = {"property": pid, "k": k, "tier": tier}
 clean()
 demo = "seed_demo%s" % k
 shutil.copy(os.path.join(src, "demo%s.rs" % k), os.path.join(wt, "tests", demo + ".rs"))
-demo_cmd = ["cargo", "test", "--offline", "--features", "in_memory", "--test", demo, "--", "--test-threads=1"]
+demo_cmd = ["cargo", "test", "--offline", "--features", "in_memory,rayon,tokio,futures", "--test", demo, "--", "--test-threads=1"]
 rc, out = sh(demo_cmd, timeout=1800)
 res["demo_passes_without"] = rc == 0
 res["demo_without_tail"] = out[-600:]
